@@ -211,6 +211,19 @@ def random_cases(family, rng, count):
                 out.append({"fn": "truncate", "x": [R(v) for v in gx], "y": [R(v) for v in gy], "rx0": X, "ry0": Y,
                             "pre": [{"k": "interpolate_n", "n": m, "method": "linear"}],
                             "left": R(lq2 if lr2 else xs[0] + lq2 * span), "right": R(rq2 if rr2 else xs[0] + rq2 * span), "lr": lr2, "rr": rr2})
+            # ... and after the series was made COARSER than its reference (interpolate(2) / interpolate(3)): bounds inside the outer
+            # gaps of the working series remove none of its samples, but the reference must still be cut (seed C11k: early return
+            # when "nothing was truncated")
+            if n >= 4 and rng.random() < 0.5:
+                mc = rng.choice([2, 3])
+                cx = [xs[0] + span * Fraction(j, mc - 1) for j in range(mc)]
+                cy = [lin(t) for t in cx]
+                if max(v.denominator for v in cx + cy) <= 4096:
+                    lq4, rq4 = Fraction(rng.randint(1, 6), 16), Fraction(rng.randint(10, 15), 16)
+                    lr4, rr4 = rng.random() < 0.5, rng.random() < 0.5
+                    out.append({"fn": "truncate", "x": [R(v) for v in cx], "y": [R(v) for v in cy], "rx0": X, "ry0": Y,
+                                "pre": [{"k": "interpolate_n", "n": mc, "method": "linear"}],
+                                "left": R(lq4 if lr4 else xs[0] + lq4 * span), "right": R(rq4 if rr4 else xs[0] + rq4 * span), "lr": lr4, "rr": rr4})
             s, t = sorted([rng.randrange(n), rng.randrange(n)])
             start = NONE if rng.random() < 0.2 else R(xs[s]) if rng.random() < 0.85 else R(xs[s] + Fraction(1, 16))
             stop = NONE if rng.random() < 0.2 else R(xs[t]) if rng.random() < 0.85 else R(xs[t] + Fraction(1, 16))
